@@ -8,6 +8,19 @@ V = os.path.dirname(os.path.dirname(os.path.abspath(__file__)))
 TECH = "symbolic execution of clang-14 LLVM IR (own interpreter) + z3 SMT queries"
 
 CHECKS = {
+    "C01": dict(
+        cat="proof",
+        text="Five groups of obligations whose conjunction with Vercauteren's optimal-ate theorem (trusted) is the property. (1) miller_doubling_step / "
+             "miller_addition_step are symbolically executed over a ring of Fq2 indeterminates: z3 decides that the running point becomes 2T / T+Q "
+             "(chord-and-tangent law, cross-multiplied) and that the coefficient triple is kappa*(1, -lambda, lambda*x - y) with kappa certified non-zero, i.e. "
+             "the untwisted line at P up to a subfield factor; `ell` multiplies the accumulator by exactly c + (b x_P) v + (a y_P) v w. (2) the single-pair "
+             "Miller loops (affine and prepared) are executed in full with uninterpreted step kernels and symbolic identity flags: the exponent map of line "
+             "values equals the textbook loop for the signed x, conjugated. (3) final_exponentiation executed over exponents mod q^12-1 applies exactly "
+             "3(q^12-1)/r. (4) a definition-level reference pairing (affine arithmetic over Fq12 = Fq[w]/(w^12-2w^6+2), no shared formulas) of the published "
+             "generators equals the exported constant and the native pairing. No bound on P, Q.",
+        note="Bilinearity in 256-bit scalars, e=1 iff an operand is the identity and e^r=1 follow from (1)-(4) + T8 + C06; they are not re-derived. Points outside the order-r subgroups are outside the claim.",
+        tech="LLVM-IR symbolic execution: polynomial-identity VCs mod q in z3 for the step kernels, uninterpreted-kernel trace/exponent-map equality for the loop, exact exponent arithmetic for the final exponentiation; independent reference oracle + native run for the generator value",
+        ref="5/C01"),
     "C02": dict(
         cat="proof",
         text="The real BigInt/FpBase/Fp templates and Fq/Fr code are lowered to IR from the current tree and executed symbolically: add, subtract, "
@@ -64,6 +77,16 @@ CHECKS = {
              "obligations of this check when present in the evidence (names glv:*, powersofx:*, loop:*); what is not listed there is not claimed.",
         tech="LLVM-IR symbolic execution with loop cutting (one inductive step from an arbitrary invariant state); QF_BV VCs and integer lemmas in z3; native replay",
         ref="5/C06"),
+    "C08": dict(
+        cat="proof",
+        text="miller_loop (general and both single-pair overloads), G2Prepared::prepare and the pairing / pairing_product wrappers are executed from the IR with the "
+             "step kernels as uninterpreted recorders, every G1/G2 identity flag symbolic and every prepared pair's private cursor holding symbolic garbage: on "
+             "every path the accumulator's exponent map equals the sum of the single-pair textbook maps of exactly the pairs with two finite members (identity "
+             "pairs contribute nothing wherever they stand), conjugated once; prepare emits the 68 triples the loop consumes, in order (= num_coeffs = "
+             "coeffs[68]); the wrappers apply final_exponentiation once, in place. List lengths n,m in {0,1,2} (quick) / {0..3} (thorough).",
+        note="Bound: list lengths as stated (loops over pairs are uniform in the index but are not cut inductively). Trusted: step kernels (C01.1), final exponentiation is a homomorphism (C01.3).",
+        tech="LLVM-IR symbolic execution with uninterpreted step kernels; path exploration over symbolic identity flags (z3 feasibility); exponent-map equality",
+        ref="5/C08"),
     "C09": dict(
         cat="proof",
         text="Encoding<G1Affine|G2Affine, compressed|uncompressed>::encode/decode are executed symbolically from the IR with every one of the 48/96/192 bytes a "
